@@ -16,7 +16,7 @@ use vcore::val::V;
 use vcore::{Check, GenCfg, Obs, Tape, Tier, Verdict};
 use vibesql_storage::btree::{BTreeIndex, VerifNode};
 use vibesql_storage::page::PageManager;
-use vibesql_storage::NativeStorage;
+use vibesql_storage::{NativeStorage, StorageBackend, StorageError, StorageFile};
 use vibesql_types::{DataType, SqlValue};
 
 pub struct C17;
@@ -25,13 +25,16 @@ pub struct C17;
 pub const SIG_OVF_DUP: &str = "page_overflow.dup_rowids";
 pub const SIG_OVF_LONG: &str = "page_overflow.long_keys";
 pub const SIG_REOPEN_FRESH: &str = "reopen_fresh_pm.tree_lost";
+pub const SIG_BULK_H3: &str = "wf.separator_bound.after_bulk_load";
+pub const SIG_DEL_PANIC: &str = "delete.panic.rebalance.index_oob";
 
 const PAGE_SIZE: usize = 4096;
 
 #[derive(Clone, Copy, Debug, PartialEq, Eq, Serialize, Deserialize)]
 pub enum Schema {
-    /// VARCHAR(10000): estimated key larger than a page => minimum degree 5
-    Wide,
+    /// VARCHAR(n): 10000 => estimated key larger than a page => minimum degree 5;
+    /// 150 => degree 6, 128 => degree 7, 110 => degree 8 (even/odd split and underflow thresholds)
+    Str(u32),
     /// (INT, VARCHAR(300)): degree 5, composite keys
     IntStr,
     /// INT: degree ~200
@@ -41,16 +44,16 @@ pub enum Schema {
 impl Schema {
     fn key_schema(self) -> Vec<DataType> {
         match self {
-            Schema::Wide => vec![DataType::Varchar { max_length: Some(10000) }],
+            Schema::Str(n) => vec![DataType::Varchar { max_length: Some(n as usize) }],
             Schema::IntStr => vec![DataType::Integer, DataType::Varchar { max_length: Some(300) }],
             Schema::Int => vec![DataType::Integer],
         }
     }
-    fn name(self) -> &'static str {
+    fn name(self) -> String {
         match self {
-            Schema::Wide => "varchar10000",
-            Schema::IntStr => "int_varchar300",
-            Schema::Int => "int",
+            Schema::Str(n) => format!("varchar{}", n),
+            Schema::IntStr => "int_varchar300".into(),
+            Schema::Int => "int".into(),
         }
     }
 }
@@ -93,6 +96,9 @@ pub struct Case {
     pub ops: Vec<Op>,
     #[serde(default)]
     pub excluded: u32,
+    /// the generator was asked to stay away from the triggers of all open known findings
+    #[serde(default)]
+    pub avoid: bool,
 }
 
 // ------------------------------------------------------------------------------------------
@@ -128,7 +134,7 @@ const LONG_LEN: usize = 1000;
 fn pool(schema: Schema, n: Num, long: bool) -> Vec<K> {
     let mut p: Vec<K> = Vec::new();
     match schema {
-        Schema::Wide => {
+        Schema::Str(_) => {
             p.push(vec![V::Null]);
             for s in ["", "a", "A", "aa", "ab", "b", "é", "日本"] {
                 p.push(vec![V::Varchar(s.to_string())]);
@@ -167,7 +173,7 @@ fn pool(schema: Schema, n: Num, long: bool) -> Vec<K> {
 /// IndexData::range_scan passes) and values between / outside pool values.
 fn extra_bounds(schema: Schema, n: Num) -> Vec<K> {
     match schema {
-        Schema::Wide => ["0", "a ", "k", "k25x", "zzz", "L"].iter().map(|s| vec![V::Varchar(s.to_string())]).collect(),
+        Schema::Str(_) => ["0", "a ", "k", "k25x", "zzz", "L"].iter().map(|s| vec![V::Varchar(s.to_string())]).collect(),
         Schema::IntStr => {
             let mut v: Vec<K> = vec![vec![V::Null]];
             for i in [-2i64, -1, 0, 1, 2, 3, 4, 7, 8] {
@@ -195,7 +201,9 @@ fn entry_bytes(k: &K, n_rows: usize) -> usize {
 
 fn degree_of(schema: Schema) -> usize {
     match schema {
-        Schema::Wide | Schema::IntStr => 5,
+        Schema::Str(10000) | Schema::IntStr => 5,
+        // mirror of calculate_degree: (4096 - 11) / (2 + 1 + 8 + 4 n + 1 + 8), at least 5
+        Schema::Str(n) => ((PAGE_SIZE - 11) / (20 + 4 * n as usize)).max(5),
         // (4096 - 11) / (2 + 9 + 1 + 8)
         Schema::Int => 204,
     }
@@ -218,33 +226,38 @@ struct Gen<'t, 'd> {
 }
 
 impl<'t, 'd> Gen<'t, 'd> {
-    /// Would the leaf that holds pool key `idx` certainly still fit into a page if `add` more row ids
-    /// were stored under `idx`?  Conservative: any run of (degree-1) consecutive present keys fits.
-    fn fits(&self, idx: usize, add: usize) -> bool {
+    /// Invariant kept in avoid mode: every run of (degree-1) consecutive present keys fits into one
+    /// page (a written leaf never holds more than degree-1 entries, and always consecutive keys).
+    /// `add = Some(n)`: n more row ids under `idx`; `None`: key `idx` disappears (its neighbours
+    /// become adjacent, e.g. in a merged leaf).
+    fn fits_change(&self, idx: usize, add: Option<usize>) -> bool {
         let w = degree_of(self.schema) - 1;
         let mut keys: Vec<(usize, usize)> = Vec::new(); // (pool idx, rows)
-        let mut pos = None;
-        // neighbours: up to w-1 present keys on either side
         let below: Vec<(usize, usize)> = self.model.range(..idx).rev().take(w - 1).map(|(k, v)| (*k, v.len())).collect();
-        for x in below.into_iter().rev() {
-            keys.push(x);
+        keys.extend(below.into_iter().rev());
+        if let Some(add) = add {
+            let cur = self.model.get(&idx).map(|v| v.len()).unwrap_or(0) + add;
+            keys.push((idx, cur));
         }
-        let cur = self.model.get(&idx).map(|v| v.len()).unwrap_or(0) + add;
-        pos.replace(keys.len());
-        keys.push((idx, cur));
         for (k, v) in self.model.range(idx + 1..).take(w - 1) {
             keys.push((*k, v.len()));
         }
-        let _ = pos;
         let sizes: Vec<usize> = keys.iter().map(|(k, n)| entry_bytes(&self.pool[*k], *n)).collect();
         let budget = PAGE_SIZE - 3 - 8;
-        for s in 0..sizes.len() {
-            let e = (s + w).min(sizes.len());
-            if sizes[s..e].iter().sum::<usize>() > budget {
+        let mut sum = 0usize;
+        for i in 0..sizes.len() {
+            sum += sizes[i];
+            if i >= w {
+                sum -= sizes[i - w];
+            }
+            if sum > budget {
                 return false;
             }
         }
         true
+    }
+    fn fits(&self, idx: usize, add: usize) -> bool {
+        self.fits_change(idx, Some(add))
     }
 
     fn fresh_row(&mut self) -> usize {
@@ -293,13 +306,21 @@ impl<'t, 'd> Gen<'t, 'd> {
         Some(Op::Insert { k: self.pool[idx].clone(), r })
     }
 
-    fn delete_op(&mut self, idx: usize) -> Op {
+    fn delete_op(&mut self, idx: usize) -> Option<Op> {
+        if self.avoid_dup_overflow && self.model.contains_key(&idx) && !self.fits_change(idx, None) {
+            self.excluded += 1;
+            return None;
+        }
         self.model.remove(&idx);
-        Op::Delete { k: self.pool[idx].clone() }
+        Some(Op::Delete { k: self.pool[idx].clone() })
     }
 
-    fn delete_specific_op(&mut self, idx: usize) -> Op {
+    fn delete_specific_op(&mut self, idx: usize) -> Option<Op> {
         let k = self.pool[idx].clone();
+        if self.avoid_dup_overflow && self.model.get(&idx).map(|r| r.len() == 1).unwrap_or(false) && !self.fits_change(idx, None) {
+            self.excluded += 1;
+            return None;
+        }
         let r = match self.model.get(&idx) {
             Some(rows) if !self.t.chance(1, 8) => {
                 let j = self.t.below(rows.len());
@@ -316,19 +337,22 @@ impl<'t, 'd> Gen<'t, 'd> {
                 }
             }
         }
-        Op::DeleteSpecific { k, r }
+        Some(Op::DeleteSpecific { k, r })
     }
 }
 
 fn build_case(t: &mut Tape, cfg: &GenCfg) -> Case {
     let mut excluded = 0u32;
-    let schema = match t.weighted(&[5, 4, 2]) {
-        0 => Schema::Wide,
+    let schema = match t.weighted(&[4, 4, 2, 1, 1, 1]) {
+        0 => Schema::Str(10000),
         1 => Schema::IntStr,
-        _ => Schema::Int,
+        2 => Schema::Int,
+        3 => Schema::Str(150),
+        4 => Schema::Str(128),
+        _ => Schema::Str(110),
     };
     let n = if t.chance(1, 3) { Num::Integer } else { Num::Double };
-    let mut long = schema == Schema::Wide && t.chance(1, 8);
+    let mut long = schema == Schema::Str(10000) && t.chance(1, 8);
     if long && cfg.avoiding(SIG_OVF_LONG) {
         long = false;
         excluded += 1;
@@ -340,6 +364,10 @@ fn build_case(t: &mut Tape, cfg: &GenCfg) -> Case {
         excluded += 1;
     }
     let avoid_fresh = cfg.avoiding(SIG_REOPEN_FRESH);
+    // bulk_load builds a third level when there are more distinct keys than (3/4 degree)^2
+    let cap = degree_of(schema) * 3 / 4;
+    // (a third level also leaves a trailing single-child internal node when the leaf count is 1 mod cap)
+    let bulk_key_limit = if cfg.avoiding(SIG_BULK_H3) || cfg.avoiding(SIG_DEL_PANIC) { cap * cap } else { usize::MAX };
     let pool = pool(schema, n, long);
     let extra = extra_bounds(schema, n);
     let plen = pool.len();
@@ -360,6 +388,10 @@ fn build_case(t: &mut Tape, cfg: &GenCfg) -> Case {
             if unique_keys && g.model.contains_key(&idx) {
                 continue;
             }
+            if !g.model.contains_key(&idx) && g.model.len() >= bulk_key_limit {
+                g.excluded += 1;
+                continue;
+            }
             if g.avoid_dup_overflow && !g.fits(idx, 1) {
                 g.excluded += 1;
                 continue;
@@ -377,7 +409,7 @@ fn build_case(t: &mut Tape, cfg: &GenCfg) -> Case {
     // ---- operation history in segments with their own op mix
     let mut ops: Vec<Op> = Vec::new();
     let max_ops = match schema {
-        Schema::Int => 900,
+        Schema::Int => 1500,
         _ => 600,
     };
     let mut focus = g.t.below(plen);
@@ -392,12 +424,13 @@ fn build_case(t: &mut Tape, cfg: &GenCfg) -> Case {
         if g.t.chance(1, 2) {
             focus = g.t.below(plen);
         }
-        // weights: insert, delete, delete_specific, lookup, multi, range, reopen, reopen_fresh, rebuild, insert_many
-        let w: [u32; 10] = match mode {
-            0 => [70, 4, 4, 5, 2, 8, 2, 1, 1, 3],
-            1 => [6, 40, 30, 5, 2, 8, 2, 1, 1, 0],
-            2 => [30, 20, 20, 8, 4, 10, 3, 1, 2, 2],
-            _ => [10, 5, 5, 25, 15, 35, 2, 1, 1, 1],
+        // weights: insert, delete, delete_specific, lookup, multi, range, reopen, reopen_fresh, rebuild, insert_many, run
+        let run_w = if schema == Schema::Int { 6 } else { 2 };
+        let w: [u32; 11] = match mode {
+            0 => [70, 4, 4, 5, 2, 8, 2, 1, 1, 3, run_w],
+            1 => [6, 40, 30, 5, 2, 8, 2, 1, 1, 0, run_w],
+            2 => [30, 20, 20, 8, 4, 10, 3, 1, 2, 2, run_w],
+            _ => [10, 5, 5, 25, 15, 35, 2, 1, 1, 1, 0],
         };
         for _ in 0..seg_len {
             if g.t.exhausted() || ops.len() >= max_ops {
@@ -413,15 +446,13 @@ fn build_case(t: &mut Tape, cfg: &GenCfg) -> Case {
                 1 => {
                     // mostly present keys
                     let idx = if g.t.chance(1, 6) { Some(g.key_idx(focus, spread)) } else { g.present_idx() };
-                    if let Some(idx) = idx {
-                        let op = g.delete_op(idx);
+                    if let Some(op) = idx.and_then(|idx| g.delete_op(idx)) {
                         ops.push(op);
                     }
                 }
                 2 => {
                     let idx = if g.t.chance(1, 6) { Some(g.key_idx(focus, spread)) } else { g.present_idx() };
-                    if let Some(idx) = idx {
-                        let op = g.delete_specific_op(idx);
+                    if let Some(op) = idx.and_then(|idx| g.delete_specific_op(idx)) {
                         ops.push(op);
                     }
                 }
@@ -455,7 +486,43 @@ fn build_case(t: &mut Tape, cfg: &GenCfg) -> Case {
                         ops.push(Op::ReopenFresh);
                     }
                 }
-                8 => ops.push(Op::Rebuild),
+                8 => {
+                    if g.model.len() > bulk_key_limit {
+                        g.excluded += 1;
+                    } else {
+                        ops.push(Op::Rebuild);
+                    }
+                }
+                10 => {
+                    // a run over consecutive pool keys: fills / drains neighbouring leaves quickly
+                    let len = if schema == Schema::Int { g.t.range(20, 220) as usize } else { g.t.range(3, 14) as usize };
+                    let start = g.key_idx(focus, spread);
+                    let ins = match mode {
+                        0 => true,
+                        1 => false,
+                        _ => g.t.chance(1, 2),
+                    };
+                    let down = g.t.chance(1, 2);
+                    for j in 0..len {
+                        let idx = if down { start.checked_sub(j) } else { Some(start + j).filter(|&i| i < plen) };
+                        let Some(idx) = idx else { break };
+                        if ops.len() >= max_ops {
+                            break;
+                        }
+                        if ins {
+                            if g.model.contains_key(&idx) {
+                                continue;
+                            }
+                            if let Some(op) = g.insert_op(idx) {
+                                ops.push(op);
+                            }
+                        } else if g.model.contains_key(&idx) {
+                            if let Some(op) = g.delete_op(idx) {
+                                ops.push(op);
+                            }
+                        }
+                    }
+                }
                 _ => {
                     // many rows share one indexed value
                     let idx = g.key_idx(focus, spread);
@@ -480,7 +547,7 @@ fn build_case(t: &mut Tape, cfg: &GenCfg) -> Case {
         }
     }
     excluded += g.excluded;
-    Case { schema, num: n, bulk, ops, excluded }
+    Case { schema, num: n, bulk, ops, excluded, avoid: cfg.avoid_known }
 }
 
 // ------------------------------------------------------------------------------------------
@@ -524,10 +591,143 @@ fn sweep_stale() {
 
 const FILE: &str = "idx.db";
 
+/// `StorageBackend` that delegates to `NativeStorage` but turns fsync into a no-op (PageManager
+/// fsyncs after every page write; durability is not part of C17 and costs ~15x wall time on ext4).
+/// `VERIF_C17_FSYNC=1` restores the real fsync. `keep = true` additionally opens existing files
+/// without truncating them (dev experiment only: what a reopen would see if NativeStorage::open_file
+/// did not truncate).
+pub struct Backend {
+    inner: NativeStorage,
+    root: PathBuf,
+    fsync: bool,
+    pub keep: std::sync::atomic::AtomicBool,
+}
+struct NoSyncFile(Box<dyn StorageFile>);
+impl StorageFile for NoSyncFile {
+    fn read_at(&mut self, offset: u64, buf: &mut [u8]) -> Result<usize, StorageError> {
+        self.0.read_at(offset, buf)
+    }
+    fn write_at(&mut self, offset: u64, buf: &[u8]) -> Result<usize, StorageError> {
+        self.0.write_at(offset, buf)
+    }
+    fn sync_all(&mut self) -> Result<(), StorageError> {
+        Ok(())
+    }
+    fn sync_data(&mut self) -> Result<(), StorageError> {
+        Ok(())
+    }
+    fn size(&self) -> Result<u64, StorageError> {
+        self.0.size()
+    }
+}
+struct KeepFile(std::fs::File);
+impl StorageFile for KeepFile {
+    fn read_at(&mut self, offset: u64, buf: &mut [u8]) -> Result<usize, StorageError> {
+        use std::io::{Read, Seek, SeekFrom};
+        self.0.seek(SeekFrom::Start(offset)).map_err(|e| StorageError::IoError(e.to_string()))?;
+        let mut n = 0;
+        while n < buf.len() {
+            match self.0.read(&mut buf[n..]) {
+                Ok(0) => break,
+                Ok(k) => n += k,
+                Err(e) => return Err(StorageError::IoError(e.to_string())),
+            }
+        }
+        Ok(n)
+    }
+    fn write_at(&mut self, offset: u64, buf: &[u8]) -> Result<usize, StorageError> {
+        use std::io::{Seek, SeekFrom, Write};
+        self.0.seek(SeekFrom::Start(offset)).map_err(|e| StorageError::IoError(e.to_string()))?;
+        self.0.write_all(buf).map_err(|e| StorageError::IoError(e.to_string()))?;
+        Ok(buf.len())
+    }
+    fn sync_all(&mut self) -> Result<(), StorageError> {
+        Ok(())
+    }
+    fn sync_data(&mut self) -> Result<(), StorageError> {
+        Ok(())
+    }
+    fn size(&self) -> Result<u64, StorageError> {
+        self.0.metadata().map(|m| m.len()).map_err(|e| StorageError::IoError(e.to_string()))
+    }
+}
+impl Backend {
+    pub fn new(root: &std::path::Path) -> Result<Backend, StorageError> {
+        Ok(Backend {
+            inner: NativeStorage::new(root)?,
+            root: root.to_path_buf(),
+            fsync: std::env::var("VERIF_C17_FSYNC").is_ok(),
+            keep: std::sync::atomic::AtomicBool::new(false),
+        })
+    }
+    fn wrap(&self, f: Box<dyn StorageFile>) -> Box<dyn StorageFile> {
+        if self.fsync {
+            f
+        } else {
+            Box::new(NoSyncFile(f))
+        }
+    }
+}
+impl StorageBackend for Backend {
+    fn create_file(&self, path: &str) -> Result<Box<dyn StorageFile>, StorageError> {
+        self.inner.create_file(path).map(|f| self.wrap(f))
+    }
+    fn open_file(&self, path: &str) -> Result<Box<dyn StorageFile>, StorageError> {
+        if self.keep.load(AtomicOrdering::Relaxed) {
+            let f = std::fs::OpenOptions::new().read(true).write(true).create(true).truncate(false).open(self.root.join(path)).map_err(|e| StorageError::IoError(e.to_string()))?;
+            return Ok(Box::new(KeepFile(f)));
+        }
+        self.inner.open_file(path).map(|f| self.wrap(f))
+    }
+    fn delete_file(&self, path: &str) -> Result<(), StorageError> {
+        self.inner.delete_file(path)
+    }
+    fn file_exists(&self, path: &str) -> bool {
+        self.inner.file_exists(path)
+    }
+    fn file_size(&self, path: &str) -> Result<u64, StorageError> {
+        self.inner.file_size(path)
+    }
+}
+
+/// Dev experiment (not part of the check; `chk_store dev-reopen-keep`): what happens behind
+/// KF-C17-3, i.e. if the index file survived `open_file`. Runs in the calling thread.
+pub fn dev_reopen_keep() {
+    let dir = TmpDir::new().expect("tmp dir");
+    let storage = Arc::new(Backend::new(&dir.0).expect("backend"));
+    let pm = Arc::new(PageManager::new(FILE, storage.clone()).expect("pm"));
+    let mut idx = BTreeIndex::new(pm.clone(), vec![DataType::Integer]).expect("new");
+    for i in 0..500 {
+        idx.insert(vec![SqlValue::Integer(i)], i as usize).expect("insert");
+    }
+    println!("before: root={} height={} degree={} next_page_id={}", idx.root_page_id(), idx.height(), idx.degree(), pm.next_page_id());
+    drop(idx);
+    drop(pm);
+    storage.keep.store(true, AtomicOrdering::Relaxed);
+    println!("opening a fresh PageManager over the (kept) file ...");
+    let t0 = std::time::Instant::now();
+    let pm2 = Arc::new(PageManager::new(FILE, storage.clone()).expect("pm2"));
+    println!("PageManager::new took {:?}; next_page_id={} free_pages={}", t0.elapsed(), pm2.next_page_id(), pm2.free_page_count());
+    let mut idx2 = BTreeIndex::load(pm2.clone()).expect("load");
+    println!("loaded: root={} height={} degree={}", idx2.root_page_id(), idx2.height(), idx2.degree());
+    println!("lookup(7) = {:?}", idx2.lookup(&vec![SqlValue::Integer(7)]));
+    for i in 500..1000 {
+        if let Err(e) = idx2.insert(vec![SqlValue::Integer(i)], i as usize) {
+            println!("insert({}) failed: {}", i, e);
+            break;
+        }
+    }
+    println!("after 500 more inserts: lookup(7) = {:?}  lookup(999) = {:?}", idx2.lookup(&vec![SqlValue::Integer(7)]), idx2.lookup(&vec![SqlValue::Integer(999)]));
+    match idx2.range_scan(None, None, true, true) {
+        Ok(r) => println!("full scan returns {} row ids (expected 1000)", r.len()),
+        Err(e) => println!("full scan failed: {}", e),
+    }
+}
+
 struct Sut {
     idx: Option<BTreeIndex>,
     pm: Option<Arc<PageManager>>,
-    storage: Arc<NativeStorage>,
+    storage: Arc<Backend>,
     _dir: TmpDir,
 }
 
@@ -767,7 +967,7 @@ fn cmp_rows(rel: &str, got: &[usize], want: &[usize], what: &str) -> Option<Bad>
 impl Sut {
     fn create(case: &Case) -> Result<(Sut, Model), Bad> {
         let dir = TmpDir::new().map_err(|e| bad("harness.tmpdir", e))?;
-        let storage = Arc::new(NativeStorage::new(&dir.0).map_err(|e| bad("harness.storage", e.to_string()))?);
+        let storage = Arc::new(Backend::new(&dir.0).map_err(|e| bad("harness.storage", e.to_string()))?);
         let pm = Arc::new(PageManager::new(FILE, storage.clone()).map_err(|e| bad("harness.page_manager", e.to_string()))?);
         let mut model: Model = BTreeMap::new();
         let idx = match &case.bulk {
@@ -907,7 +1107,8 @@ fn apply(sut: &mut Sut, model: &mut Model, case: &Case, op: &Op) -> Result<bool,
                 }
             }
             match catch(|| sut.idx_mut().delete_specific(&key, *r)) {
-                Err(p) => Err(bad(format!("delete_specific.panic.{}", panic_class(&p)), p)),
+                // same rebalancing code as delete(): one signature family
+                Err(p) => Err(bad(format!("delete.panic.{}", panic_class(&p)), format!("delete_specific: {}", p))),
                 Ok(Err(e)) => Err(overflow_or("delete_specific", e.to_string())),
                 Ok(Ok(got)) => {
                     if got != want {
@@ -1043,8 +1244,8 @@ impl Check for C17 {
     }
     fn rule(&self) -> String {
         "case = key schema (VARCHAR(10000) => degree 5 | (INT,VARCHAR(300)) => degree 5 | INT => degree 204), numeric representation (Double as IndexManager \
-         normalises, or Integer), optional bulk_load of 0-400 sorted entries (duplicates, row ids ascending per key), history of up to 600 (INT: 900) ops in \
-         segments (grow / shrink / mixed / query-heavy) around a moving key focus: insert, insert_many (rows sharing a key), delete, delete_specific, lookup, \
+         normalises, or Integer), optional bulk_load of 0-400 sorted entries (duplicates, row ids ascending per key), history of up to 600 (INT: 1500) ops in \
+         segments (grow / shrink / mixed / query-heavy) around a moving key focus: insert, insert_many (rows sharing a key), runs of inserts/deletes over consecutive keys, delete, delete_specific, lookup, \
          multi_lookup, range_scan (all inclusive/exclusive/unbounded combinations, reversed and prefix bounds), reopen (load on same PageManager), reopen \
          with a fresh PageManager, rebuild (bulk_load of the current content on the same PageManager). Keys from a pool of ~60 (INT: 601) incl. NULL components, \
          composite keys, multibyte strings; row ids fresh per insert. Oracle: BTreeMap<Key, Vec<RowId>> (row ids in insertion order, as documented) after \
@@ -1057,13 +1258,13 @@ impl Check for C17 {
             "input domain = what IndexManager does: a (key,row id) pair is inserted at most once while present, bulk_load input is sorted by key with ascending row ids, keys have the schema's arity (range bounds may be prefixes), numeric components are finite (no NaN, no -0.0)".into(),
             "single-threaded use of one BTreeIndex (callers hold a mutex)".into(),
             "no child-process isolation: every mutating op is followed by a structural walk that does not follow the leaf chain, so a corrupted chain is reported before range_scan could loop on it".into(),
-            "temp files under /verif/target/tmp/c17 (override: VERIF_C17_TMP); PageManager fsyncs every page write".into(),
+            "temp files under /verif/target/tmp/c17 (override: VERIF_C17_TMP), one directory per case, removed when the case ends; the storage backend is NativeStorage wrapped so that fsync is a no-op (VERIF_C17_FSYNC=1 keeps it): durability is not part of C17".into(),
         ]
     }
     fn cases(&self, tier: Tier) -> u64 {
         match tier {
-            Tier::Quick => 2_000,
-            Tier::Thorough => 40_000,
+            Tier::Quick => 4_000,
+            Tier::Thorough => 100_000,
         }
     }
     fn tape_len(&self, _t: Tier) -> usize {
@@ -1088,7 +1289,7 @@ impl Check for C17 {
     fn fixed_cases(&self, _tier: Tier) -> Vec<Case> {
         let mut v = Vec::new();
         // ladders: ascending / descending / inside-out fills, then drain in another order
-        for schema in [Schema::Wide, Schema::IntStr, Schema::Int] {
+        for schema in [Schema::Str(10000), Schema::IntStr, Schema::Int, Schema::Str(150), Schema::Str(128), Schema::Str(110)] {
             for num in [Num::Double, Num::Integer] {
                 let p = pool(schema, num, false);
                 let n = p.len();
@@ -1121,7 +1322,7 @@ impl Check for C17 {
                             }
                         }
                         ops.push(Op::Range { lo: None, hi: None, inc_lo: true, inc_hi: true });
-                        v.push(Case { schema, num, bulk: None, ops, excluded: 0 });
+                        v.push(Case { schema, num, bulk: None, ops, excluded: 0, avoid: false });
                     }
                 }
                 // bulk load of the whole pool (unique keys), then drain
@@ -1130,11 +1331,11 @@ impl Check for C17 {
                 for i in (0..n).rev() {
                     ops.push(Op::Delete { k: p[i].clone() });
                 }
-                v.push(Case { schema, num, bulk: Some(bulk), ops, excluded: 0 });
+                v.push(Case { schema, num, bulk: Some(bulk), ops, excluded: 0, avoid: false });
             }
         }
         // many rows sharing one key (non-unique index): 600 row ids under one key
-        v.push(Case { schema: Schema::Wide, num: Num::Double, bulk: None, ops: vec![Op::InsertMany { k: vec![V::Varchar("a".into())], r0: 0, n: 600 }], excluded: 0 });
+        v.push(Case { schema: Schema::Str(10000), num: Num::Double, bulk: None, ops: vec![Op::InsertMany { k: vec![V::Varchar("a".into())], r0: 0, n: 600 }], excluded: 0, avoid: false });
         // INT index where every value occurs twice: bulk_load of 2 x 160 rows
         {
             let mut bulk = Vec::new();
@@ -1142,17 +1343,17 @@ impl Check for C17 {
                 bulk.push((vec![V::dbl(i as f64)], 2 * i));
                 bulk.push((vec![V::dbl(i as f64)], 2 * i + 1));
             }
-            v.push(Case { schema: Schema::Int, num: Num::Double, bulk: Some(bulk), ops: vec![Op::Range { lo: None, hi: None, inc_lo: true, inc_hi: true }], excluded: 0 });
+            v.push(Case { schema: Schema::Int, num: Num::Double, bulk: Some(bulk), ops: vec![Op::Range { lo: None, hi: None, inc_lo: true, inc_hi: true }], excluded: 0, avoid: false });
         }
         // four 1000-byte strings in a VARCHAR(10000) index
         {
-            let p = pool(Schema::Wide, Num::Double, true);
+            let p = pool(Schema::Str(10000), Num::Double, true);
             let longs: Vec<&K> = p.iter().filter(|k| matches!(&k[0], V::Varchar(s) if s.len() >= 500)).collect();
             let ops = longs.iter().take(4).enumerate().map(|(r, k)| Op::Insert { k: (*k).clone(), r }).collect();
-            v.push(Case { schema: Schema::Wide, num: Num::Double, bulk: None, ops, excluded: 0 });
+            v.push(Case { schema: Schema::Str(10000), num: Num::Double, bulk: None, ops, excluded: 0, avoid: false });
         }
         // reopen through a fresh PageManager
-        v.push(Case { schema: Schema::Wide, num: Num::Double, bulk: None, ops: vec![Op::Insert { k: vec![V::Varchar("a".into())], r: 0 }, Op::ReopenFresh, Op::Lookup { k: vec![V::Varchar("a".into())] }], excluded: 0 });
+        v.push(Case { schema: Schema::Str(10000), num: Num::Double, bulk: None, ops: vec![Op::Insert { k: vec![V::Varchar("a".into())], r: 0 }, Op::ReopenFresh, Op::Lookup { k: vec![V::Varchar("a".into())] }], excluded: 0, avoid: false });
         v
     }
 
@@ -1212,19 +1413,35 @@ impl Check for C17 {
                 return Verdict::Harness(format!("{}: {} ({})", sig, detail, at));
             }
             if vcore::kf::is_open_global(&sig) {
+                if case.avoid {
+                    // measures how well the generator's avoidance works (should stay near zero)
+                    obs.class(&format!("avoid_leak:{}", sig));
+                    if std::env::var("VERIF_C17_LEAK_FAIL").is_ok() {
+                        // dev aid: make the leak visible as a failure so that it gets shrunk and printed
+                        return Verdict::fail(format!("dev.avoid_leak.{}", sig), format!("{}\n{}", at, detail));
+                    }
+                }
                 // the history cannot go on meaningfully past this defect
                 obs.known_hits.push(sig);
                 return Verdict::Pass;
             }
             Verdict::fail(sig, format!("{}\n{}", at, detail))
         };
+        // dev aid (never set in normal runs): ignore structural findings and keep comparing answers,
+        // to see the user-visible consequences of a malformed tree
+        let skip_wf = std::env::var("VERIF_C17_SKIP_WF").is_ok();
         let mut ev = Events::default();
         let (mut sut, mut model) = match Sut::create(case) {
             Ok(x) => x,
             Err(b) => return finish(obs, &ev, b, "at creation".into()),
         };
+        if sut.idx().degree() != degree_of(case.schema) {
+            return Verdict::Harness(format!("harness.degree_model: tree degree {} but the generator assumes {} for {}", sut.idx().degree(), degree_of(case.schema), case.schema.name()));
+        }
+        obs.class(&format!("degree:{}", sut.idx().degree()));
         let mut shape = match check_tree(sut.idx(), &model) {
             Ok(s) => s,
+            Err((s, _)) if skip_wf && !s.starts_with("harness.") => Shape { height: sut.idx().height(), leaves: 0, internals: 0, seps: vec![] },
             Err((s, d)) => return finish(obs, &ev, (format!("{}.after_{}", s, if case.bulk.is_some() { "bulk_load" } else { "new" }), d), "after creation".into()),
         };
         let mut max_height = shape.height;
@@ -1238,6 +1455,7 @@ impl Check for C17 {
                 Ok(m) => m,
                 Err(b) => {
                     if b.0 == "page_overflow" {
+                        obs.class(&format!("page_overflow:{}:{}", case.schema.name(), name));
                         // informational: did the failed write leave the tree intact (minus the new entry)?
                         if let Some(idx) = sut.idx.as_ref() {
                             obs.class(if check_tree(idx, &model).is_ok() { "overflow_err.tree_intact" } else { "overflow_err.tree_damaged" });
@@ -1251,9 +1469,15 @@ impl Check for C17 {
             }
             let new_shape = match check_tree(sut.idx(), &model) {
                 Ok(s) => s,
+                Err((s, _)) if skip_wf && !s.starts_with("harness.") => continue,
                 Err((s, d)) => {
                     // trigger = the op and the structural event it caused
-                    let sig = if matches!(op, Op::ReopenFresh) { SIG_REOPEN_FRESH.to_string() } else { format!("{}.after_{}", s, name) };
+                    let sig = match op {
+                        Op::ReopenFresh => SIG_REOPEN_FRESH.to_string(),
+                        // rebuild_indexes is a bulk_load of the current rows
+                        Op::Rebuild => format!("{}.after_bulk_load", s),
+                        _ => format!("{}.after_{}", s, name),
+                    };
                     return finish(obs, &ev, (sig, d), at);
                 }
             };
@@ -1311,6 +1535,7 @@ impl Check for C17 {
         obs.nontrivial = ev.split > 0 && (ev.merge + ev.borrow + ev.collapse) > 0;
         if obs.nontrivial {
             obs.class("nontrivial");
+            obs.class(&format!("nontrivial:degree{}", degree_of(case.schema)));
         }
         Verdict::Pass
     }
